@@ -64,7 +64,7 @@ CHECKS = {
             {"engine": "hashmap", "profile": "dev", "cases": {"quick": 4000, "thorough": 40000}, "primary": True},
             {"engine": "hashmap", "profile": "release", "cases": {"quick": 0, "thorough": 20000}, "primary": False},
             asan("hashmap", 320, 8000),
-            miri("hashmap", 0, 64),
+            miri("hashmap", 1, 64),
         ],
         "hard_floor": {"evaluations": 100, "counters": {"ops_compared": 1000}},
         "targets": {
@@ -88,7 +88,7 @@ CHECKS = {
             {"engine": "handletable", "profile": "dev", "cases": {"quick": 4000, "thorough": 40000}, "primary": True},
             {"engine": "handletable", "profile": "release", "cases": {"quick": 0, "thorough": 20000}, "primary": False},
             asan("handletable", 320, 8000),
-            miri("handletable", 0, 64),
+            miri("handletable", 1, 64),
         ],
         "hard_floor": {"evaluations": 100, "counters": {"ops_compared": 1000}},
         "targets": {
@@ -110,7 +110,7 @@ CHECKS = {
             {"engine": "stacks", "profile": "dev", "cases": {"quick": 6000, "thorough": 80000}, "primary": True},
             {"engine": "stacks", "profile": "release", "cases": {"quick": 0, "thorough": 40000}, "primary": False},
             asan("stacks", 320, 8000),
-            miri("stacks", 0, 64),
+            miri("stacks", 1, 96),
         ],
         "hard_floor": {"evaluations": 100, "counters": {"ops_compared": 1000}},
         "targets": {"quick": {"ops_compared": 100000}, "thorough": {"ops_compared": 1000000}},
